@@ -21,8 +21,18 @@
 // somebody sleeps on it owes a wake).
 //
 // Modes: all (default) | small (few elements, many cycles: close/wake races) | big (large batches).
+//
+// NOTE (finding C15-undefined-members): ConcurrentTransientTopic::reserve(size_t), ConsumeRange::operator bool()
+// and Consumer::operator bool() are declared `inline` in transient_topic.h but defined nowhere: a client that
+// follows docs/concurrent/transient_topic.*.md (`topic.reserve(N)`) does not link. The harness therefore reserves
+// through the private slot vector and does not use the bool conversions unless the fix
+// (/verif/fixes_proposed/C15-undefined-members.diff) is in: build with -DVF_C15_UNDEFINED_MEMBERS_FIXED=1 then.
 #include "common/vf.h"
 #include "common/vf_interpose.h"
+
+#ifndef VF_C15_UNDEFINED_MEMBERS_FIXED
+#define VF_C15_UNDEFINED_MEMBERS_FIXED 0
+#endif
 
 #include "babylon/concurrent/transient_topic.h"
 
@@ -268,7 +278,9 @@ void consume_loop(World& w, ConsumerT consumer, ConRec& rec, vf::Rng& r) {
       auto range = consumer.consume(op.want);
       op.ret = vf::stamp_ret();
       op.got = uint32_t(range.size());
+#if VF_C15_UNDEFINED_MEMBERS_FIXED
       if (bool(range) != (op.got > 0)) rec.range_bool_mismatch = true;
+#endif
       op.range_begin = op.got ? range._begin : op.begin_pos;
       for (uint32_t i = 0; i < op.got; ++i) take(range[i]);
       if (op.got > 1 && (op.begin_pos & 127) + op.got > 128) VF_COUNT("rare:consume_range_straddles_block");
@@ -304,11 +316,11 @@ void consumer_thread(World& w, int ci, uint64_t ep_seed) {
     case 1: vf::raw_sleep_us(r.range(1, 1500)); break;
     case 2: {
       uint64_t k = r.range(0, c.total);
-      while (c.published.load(::std::memory_order_relaxed) < k && !c.closed.load(::std::memory_order_relaxed) && !vf::failed()) ::sched_yield();
+      while (c.published.load(::std::memory_order_relaxed) < k && !c.closed.load(::std::memory_order_relaxed) && !vf::failed()) vf::raw_sleep_us(30);
       break;
     }
     case 3:
-      while (c.closed.load(::std::memory_order_relaxed) != 2 && !vf::failed()) ::sched_yield();
+      while (c.closed.load(::std::memory_order_relaxed) != 2 && !vf::failed()) vf::raw_sleep_us(30);
       VF_COUNT("rare:subscribed_after_close");
       break;
     default: break;
@@ -495,6 +507,7 @@ uint64_t futex_slept_total() {
 
 const ::std::vector<::std::string> kStallPoints = {
     "topic:published_before_wake", "topic:closed_before_wake", "topic:consume_before_wait", "topic:wake_slow",
+    "topic:set_published_loop",  // proposed in hooks_proposed/C15.diff (a batch half published); harmless while absent
     "futex:before_wait", "futex:before_wake", "c15:S:before_wait", "c15:S:before_wake", "cb:c15_fill"};
 
 void episode(uint64_t seed, uint64_t index, const ::std::string& mode) {
@@ -509,7 +522,7 @@ void episode(uint64_t seed, uint64_t index, const ::std::string& mode) {
   cfg.cycles = int(r.range(3, 6));
   if (cfg.mode == "small") { cfg.max_total = r.pick<uint64_t>({0, 1, 2, 5, 20, 130}); cfg.max_batch = 8; cfg.max_consume = uint32_t(r.pick<uint32_t>({1, 3, 200})); }
   else if (cfg.mode == "mid") { cfg.max_total = 600; cfg.max_batch = 64; cfg.max_consume = 300; }
-  else { cfg.max_total = vf::args().thorough ? 6000 : 3000; cfg.max_batch = 300; cfg.max_consume = 700; }
+  else { cfg.max_total = (vf::args().thorough ? 6000 : 3000) / (VF_TSAN ? 2 : 1); cfg.max_batch = 300; cfg.max_consume = 700; }
   cfg.reserve = r.chance(1, 4);
   cfg.solo_flag = r.chance(1, 2);
   cfg.pin = int(r.pick<int>({0, 0, 0, 1, 2, 3}));
@@ -519,7 +532,14 @@ void episode(uint64_t seed, uint64_t index, const ::std::string& mode) {
   g_world = &w;
   Topic topic;
   w.topic = &topic;
-  if (cfg.reserve) topic.reserve(size_t(r.range(1, 2000)));
+  if (cfg.reserve) {
+    size_t n = size_t(r.range(1, 2000));
+#if VF_C15_UNDEFINED_MEMBERS_FIXED
+    topic.reserve(n);
+#else
+    topic._slots.reserve(n);   // what reserve() is documented to do; see the note at the top
+#endif
+  }
   uint64_t slept_before = futex_slept_total();
   uint64_t wake_slow_before = vf::counter_value("point:topic:wake_slow") + vf::counter_value("obs:hsched_futex_wake_all");
   uint64_t ep_seed = vf::mix(seed, index, 0xe9);
@@ -547,9 +567,14 @@ void episode(uint64_t seed, uint64_t index, const ::std::string& mode) {
     }
     w.cyc = &c;
     vf::watchdog().arm(true);
+    // creation order of the threads is shuffled: consumers may be running (and asleep) before the first publisher starts
+    ::std::vector<int> role(static_cast<size_t>(P + C));
+    for (int i = 0; i < P + C; ++i) role[size_t(i)] = i;
+    for (size_t i = role.size(); i > 1; --i) ::std::swap(role[i - 1], role[r.below(i)]);
     vf::run_threads(P + C, vf::mix(ep_seed, uint64_t(cy)), [&](int t) {
-      if (t < P) publisher(w, t, ep_seed);
-      else consumer_thread(w, t - P, ep_seed);
+      int who = role[size_t(t)];
+      if (who < P) publisher(w, who, ep_seed);
+      else consumer_thread(w, who - P, ep_seed);
     });
     vf::watchdog().arm(false);
     if (vf::failed()) break;
